@@ -37,6 +37,8 @@ pub mod util;
 #[cfg(kani)]
 pub mod s_send;
 #[cfg(kani)]
+pub mod s_sow;
+#[cfg(kani)]
 pub mod s_watch;
 #[cfg(kani)]
 pub mod s_metrics;
